@@ -1,6 +1,6 @@
 """Builds and runs the replay runner (a scratch crate with a path dependency on the repo's working tree)."""
 import os, subprocess, shutil, hashlib, tempfile
-from .engine import VERIF, REPO, WORK
+from .engine import VERIF, REPO, WORK, unit_lock
 
 _built = {}
 
@@ -18,12 +18,29 @@ def crate_dir():
 def build():
     if REPO in _built:
         return _built[REPO]
-    d = crate_dir()
-    env = dict(os.environ, CARGO_NET_OFFLINE='true', CARGO_TARGET_DIR=os.path.join(WORK, 'replay_target'))
-    p = subprocess.run(['cargo', 'build', '--offline', '-q'], cwd=d, env=env, capture_output=True, text=True, timeout=1200)
-    exe = os.path.join(WORK, 'replay_target', 'debug', 'replay_runner')
-    ok = p.returncode == 0 and os.path.exists(exe)
-    _built[REPO] = (exe if ok else None, p.stderr[-2000:])
+    with unit_lock('replay_runner_build'):
+        d = crate_dir()
+        scratch = os.path.realpath(REPO) != '/repo'
+        # scratch copies of the repository share one cargo target directory (dependencies are compiled once); the binary is
+        # copied into the run's own work directory while the build lock is held
+        tdir = os.path.join(VERIF, '.work', 'replay_target_scratch' if scratch else 'replay_target')
+        env = dict(os.environ, CARGO_NET_OFFLINE='true', CARGO_TARGET_DIR=tdir)
+        if scratch:
+            import fcntl
+            os.makedirs(tdir, exist_ok=True)
+            lf = open(os.path.join(tdir, '.verif_build.lock'), 'w')
+            fcntl.flock(lf, fcntl.LOCK_EX)
+        p = subprocess.run(['cargo', 'build', '--offline', '-q'], cwd=d, env=env, capture_output=True, text=True, timeout=1800)
+        exe = os.path.join(tdir, 'debug', 'replay_runner')
+        ok = p.returncode == 0 and os.path.exists(exe)
+        if ok and scratch:
+            own = os.path.join(WORK, 'replay_runner_exe')
+            shutil.copy2(exe, own)
+            exe = own
+        if scratch:
+            fcntl.flock(lf, fcntl.LOCK_UN)
+            lf.close()
+        _built[REPO] = (exe if ok else None, p.stderr[-2000:])
     return _built[REPO]
 
 
